@@ -16,7 +16,7 @@ use std::collections::BTreeMap;
 
 pub struct CliRejects;
 
-pub const KINDS: [&str; 24] = [
+pub const KINDS: [&str; 25] = [
     "truncate",
     "truncate",
     "empty",
@@ -31,6 +31,7 @@ pub const KINDS: [&str; 24] = [
     "json:trailing_value",
     "both:prob_zero",
     "both:prob_negative",
+    "json:weights_all_negative",
     "both:empty_actions",
     "both:actions_differ",
     "both:chance_weights_differ",
@@ -214,6 +215,31 @@ fn set_first_chance_weight(g: &MNode, w0: f64) -> Option<MNode> {
     }
 }
 
+/// every weight of the first chance node (unnamed; one outcome or several) becomes negative:
+/// a common sign would cancel in a normalisation, but a negative weight is not a probability
+fn negate_first_chance(g: &MNode) -> Option<MNode> {
+    fn go(n: &MNode, done: &mut bool) -> MNode {
+        match n {
+            MNode::T(x) => MNode::T(*x),
+            MNode::C { info, outs } => {
+                let hit = !*done && info.is_none();
+                if hit {
+                    *done = true;
+                }
+                MNode::C { info: info.clone(), outs: outs.iter().map(|(a, w, c)| (a.clone(), if hit { -*w } else { *w }, go(c, done))).collect() }
+            }
+            MNode::P { player, info, acts } => MNode::P { player: *player, info: info.clone(), acts: acts.iter().map(|(a, c)| (a.clone(), go(c, done))).collect() },
+        }
+    }
+    let mut done = false;
+    let r = go(g, &mut done);
+    if done {
+        Some(r)
+    } else {
+        None
+    }
+}
+
 fn empty_first_decision(g: &MNode) -> Option<MNode> {
     fn go(n: &MNode, done: &mut bool) -> MNode {
         match n {
@@ -372,6 +398,12 @@ impl CliRejects {
                     return Err("not-applicable");
                 }
                 Ok(vec![from_model(set_first_chance_weight(&case.game, -1.0).ok_or("not-applicable")?, "file_semantic_prob_negative")])
+            }
+            "json:weights_all_negative" => {
+                if fmt != Format::Json {
+                    return Err("not-applicable");
+                }
+                Ok(vec![from_model(negate_first_chance(&case.game).ok_or("not-applicable")?, "file_semantic_all_weights_of_a_chance_node_negative")])
             }
             "both:empty_actions" => {
                 if fmt != Format::Json {
